@@ -1095,6 +1095,77 @@ def yaml_configs():
                                                                                  "last": copy.deepcopy(s4)}}]
 
 
+CUSTOM_COLUMNS = ["aq_kcals", "crop_kcals", "population", "crop_reduction_year3", "grasses_reduction_year2", "stocks_kcals_jan",
+                  "kg_meat_per_pig", "seasonality_m4", "dairy_cows", "retail_waste_baseline"]
+
+
+def check_custom_parameter(a, iso, extras):
+    """the REAL ScenarioRunnerNoTrade.apply_custom_parameters: an option whose key is a column of the country table must put
+    float(value) into exactly that column (also when the value is 0); nothing else may change; a key that is not a column
+    creates no column (reference recorded from the unchanged tree: only 'kg_meat_per_large_animal' is added)"""
+    import runutil
+    from src.scenarios.run_model_no_trade import ScenarioRunnerNoTrade
+    row = a.rows.by_iso[iso].copy()
+    before = row.copy()
+    opt = dict(runutil.BASE_OPTION)
+    opt.update(extras)
+    snap = copy.deepcopy(opt)
+    inp = {"iso3": iso, "extras": extras}
+    try:
+        with quiet():
+            out = ScenarioRunnerNoTrade().apply_custom_parameters(row, opt)
+    except BaseException as e:
+        a.fail("C13:custom-parameter-rejected@apply_custom_parameters", f"{iso} {extras}: {classify(e)} {str(e)[:80]}", "custom", inp)
+        return
+    a.cnt("L_custom_parameter_cases")
+    if opt != snap or list(opt) != list(snap):
+        a.fail("C13:caller-dict-modified@apply_custom_parameters", f"{iso} {extras}: option dictionary modified", "custom", inp)
+    allowed_new = {"kg_meat_per_large_animal"} & set(extras)
+    new_cols = [c for c in out.index if c not in before.index]
+    if set(new_cols) != allowed_new:
+        a.fail("C13:custom-parameter-creates-column@apply_custom_parameters",
+               f"{iso} {extras}: columns created {new_cols}, reference behaviour creates {sorted(allowed_new)}", "custom", inp)
+    for c in before.index:
+        old, new = before[c], out[c]
+        if c in extras:
+            want = float(extras[c])
+            if not (isinstance(new, (int, float, np.integer, np.floating)) and float(new) == want):
+                a.fail(f"C13:custom-parameter-not-applied@apply_custom_parameters:{c}={extras[c]!r}",
+                       f"{iso}: option {c}={extras[c]!r} must set the country row's {c} to {want}; the row handed on has {new!r} "
+                       f"(table value {old!r})", "custom", inp)
+        elif not (old == new or (old != old and new != new)):
+            a.fail(f"C13:custom-parameter-changes-other-column@apply_custom_parameters:{c}",
+                   f"{iso} {extras}: column {c} changed from {old!r} to {new!r}", "custom", inp)
+    if "kg_meat_per_large_animal" in extras and float(out.get("kg_meat_per_large_animal", float("nan"))) != float(extras["kg_meat_per_large_animal"]):
+        a.fail("C13:custom-parameter-not-applied@apply_custom_parameters:kg_meat_per_large_animal",
+               f"{iso} {extras}: kg_meat_per_large_animal not carried by the row", "custom", inp)
+
+
+def part_L(a, quick):
+    isos = ["USA", "NZL", "SWT", "IND"] if quick else ["USA", "NZL", "SWT", "IND", "ARG", "SLV", "CHN", "ISL"]
+    isos = [i for i in isos if i in a.rows.by_iso]
+    for iso in isos:
+        row = a.rows.by_iso[iso]
+        for col in CUSTOM_COLUMNS:
+            tv = float(row[col])
+            for v in (0, 0.0, 1e-9, 0.5 * tv, 1e12, "0"):
+                check_custom_parameter(a, iso, {col: v})
+        check_custom_parameter(a, iso, {"aq_kcals": 0, "crop_reduction_year3": 0.0, "population": 2.5e6})
+        check_custom_parameter(a, iso, {"not_a_column": 3, "chicken_head": 0, "kg_meat_per_large_animal": 250})
+        check_custom_parameter(a, iso, {"kg_meat_per_large_animal": 0})
+        check_custom_parameter(a, iso, {})
+    # report at most four distinct instances (all are counted in the observations)
+    cust = [f for f in a.failures if f["check"] == "custom"]
+    if cust:
+        a.obs["custom_parameter_failures"] = {"count": len(cust), "keys": sorted(set(f["key"] for f in cust))[:20]}
+        keep, seen = [], set()
+        for f in cust:
+            if f["key"] not in seen and len(seen) < 4:
+                seen.add(f["key"])
+                keep.append(f)
+        a.failures = [f for f in a.failures if f["check"] != "custom"] + keep
+
+
 def species_columns():
     t = pd.read_csv("data/no_food_trade/animal_feed_data/FAOSTAT_head_and_slaughter.csv", nrows=1)
     return [c for c in t.columns if c.endswith("_head")]
@@ -1116,6 +1187,8 @@ def run(payload):
             a.check_head(inp["species"], inp["code"], inp["value"])
         elif chk == "doc":
             a.check_doc(inp["fam"], inp["val"])
+        elif chk == "custom":
+            check_custom_parameter(a, inp["iso3"], inp["extras"])
         elif chk == "yaml":
             check_yaml_driver(a, inp["config"])
         elif chk == "history":
@@ -1157,6 +1230,7 @@ def run(payload):
         check_full_run(a, *fr)
     for cfg in yaml_configs():
         check_yaml_driver(a, cfg)
+    part_L(a, quick)
     for orun in (OVERRIDE_RUNS[:2] if quick else OVERRIDE_RUNS):
         check_override_run(a, *orun)
     return {"failures": a.failures, "counts": a.counts, "observations": a.obs, "distinct": a.distinct,
